@@ -179,8 +179,8 @@ impl PageCache {
             remaining_frames.push(frame);
         }
 
+        // Emptying the cache does not shrink it: the configured capacity stays.
         self.cursor = 0;
-        self.capacity = 0;
         remaining_frames
     }
 }
